@@ -606,6 +606,90 @@ def rule_bonus_args(ctx):
     ctx.floor("bonus_for call sites in the scorers", n, 9)
 
 
+def rule_class_source(ctx):
+    """The class a character contributes to the bonus is the class of the character AS IT STANDS IN THE HAYSTACK: the
+    two classifier routines of `char` (`char_class` and the class component of `char_class_and_normalize`) are siblings
+    that the scorers mix freely (calculate_score uses both), so on every decision path both must classify the raw
+    parameter -- never the normalized / folded value -- and take the ASCII route exactly when the raw character is ASCII."""
+    from cfg import decision_paths
+    CC = "<char as chars::Char>::char_class"
+    CCAN = "<char as chars::Char>::char_class_and_normalize"
+
+    def raw(x):
+        x = strip_casts(x)
+        while x[0] in ("ref", "deref", "cast"):
+            x = strip_casts(x[2] if x[0] == "cast" else x[1])
+        return x[0] == "arg" and x[1] == 1
+
+    def class_form(e):
+        """(kind, classified expression) of a class expression, or None."""
+        e = strip_casts(e)
+        while e[0] in ("ref", "deref"):
+            e = strip_casts(e[1])
+        if e[0] == "field" and e[2] == "1":
+            b = strip_casts(e[1])
+            if b[0] == "call" and str(b[1]).endswith("<chars::AsciiChar as chars::Char>::char_class_and_normalize"):
+                a = strip_casts(b[2][0])
+                if a[0] == "agg" and isinstance(a[2], dict) and "0" in a[2]:
+                    return ("ascii", a[2]["0"])
+            return None
+        if e[0] == "call":
+            nm = str(e[1])
+            if nm.endswith("chars::char_class_non_ascii"):
+                return ("non-ascii", e[2][0])
+            if nm.endswith("<chars::AsciiChar as chars::Char>::char_class"):
+                a = strip_casts(e[2][0])
+                if a[0] == "agg" and isinstance(a[2], dict) and "0" in a[2]:
+                    return ("ascii", a[2]["0"])
+            if nm.endswith(CC):
+                return ("sibling", e[2][0])
+        return None
+
+    n = 0
+    seen = set()
+    for path, pair in ((CC, False), (CCAN, True)):
+        fn = get_fn(ctx.facts, M, path)
+        short = path.rsplit("::", 1)[1]
+        bad = False
+        for conds, res in decision_paths(fn):
+            if res is None:
+                continue
+            asc = None      # is the RAW character known to be ASCII / non-ASCII on this path?
+            for d, chosen, allv in conds:
+                d0 = strip_casts(d)
+                if d0[0] == "call" and str(d0[1]).endswith("is_ascii") and raw(d0[2][0]):
+                    asc = (chosen != 0) if chosen is not None else True
+            cls = res
+            if pair:
+                r = strip_casts(res)
+                if r[0] != "tuple" or len(r[1]) != 2:
+                    raise Inconclusive("%s: result is not a (char, class) pair" % path)
+                cls = r[1][1]
+            cf = class_form(cls)
+            if cf is None:
+                raise Inconclusive("%s: class expression %s not recognised" % (path, show(cls)[:120]))
+            kind, arg = cf
+            n += 1
+            if not raw(arg):
+                key = "%s|class-source|argument" % path
+                if key not in seen:
+                    ctx.violation(key, site(fn, 0),
+                                  "char::%s returns the class of %s, not of the raw character (a character whose normalized form is another letter, U+0274 -> N, "
+                                  "gets that letter's class): the bonus of a position then depends on which classifier a scorer happens to use" % (short, show(arg)[:80]))
+                seen.add(key)
+                bad = True
+            elif kind != "sibling" and asc is not (kind == "ascii"):
+                key = "%s|class-source|route" % path
+                if key not in seen:
+                    ctx.violation(key, site(fn, 0), "char::%s takes the %s classifier on a path where the raw character is %s" % (
+                        short, kind, "not tested with is_ascii" if asc is None else ("ASCII" if asc else "not ASCII")))
+                seen.add(key)
+                bad = True
+        if not bad:
+            ctx.ok(site(fn, 0), "char::%s classifies the raw character on every decision path (ASCII route iff the raw character is ASCII)" % short)
+    ctx.floor("class expressions of the two char classifiers (at least the ASCII and the non-ASCII route of char_class, one of the pair routine)", n, 3)
+
+
 def rule_twins(ctx):
     from props.c02 import rule_twins as r
     r(ctx)
@@ -702,3 +786,4 @@ def rules(ctx):
     ctx.run_rule("C03.bonus-args", rule_bonus_args)
     ctx.run_rule("C03.indices-guard", rule_indices_guard)
     ctx.run_rule("C03.twins", rule_twins)
+    ctx.run_rule("C03.class-source", rule_class_source)
